@@ -5,6 +5,9 @@
 here=$(cd "$(dirname "$0")/.." && pwd)
 out="$here/seeded/DETECTION.json"
 tmp=$(mktemp -d /tmp/uqtable.XXXXXX); trap 'rm -rf "$tmp"' EXIT
+# one private copy of the checker and one evaluation of the unchanged tree for the whole table
+cp "$here/bin/uqcheck" "$tmp/uqcheck"; export UQ_BIN="$tmp/uqcheck"
+mkdir -p "$tmp/ev0"; "$UQ_BIN" -property all -repo /repo -verif "$here" -evidence-dir "$tmp/ev0" 2>&1 | grep -E "^  violated" | sed -E 's/ at [^ ]+:[0-9]+.*//' | sort -u > "$tmp/base.txt"; export UQ_BASE="$tmp/base.txt"
 seeds=("$@"); [ ${#seeds[@]} -gt 0 ] || seeds=($(cd "$here/seeded" && ls -d */ | tr -d /))
 printf '%s\n' "${seeds[@]}" | xargs -P ${SEED_JOBS:-4} -I{} sh -c "SEED_COLS=400 $here/tools/seed_eval.sh $here/seeded/{}/patch.diff > $tmp/{}.out 2>&1"
 python3 - "$out" "$tmp" "${seeds[@]}" <<'PY'
